@@ -32,6 +32,18 @@ def obligations(tier, ctx):
             obs.append(Ob(name="sse_" + "_".join(kt), params=params, pre=pre,
                           call=f"H.sse_grammar({kt!r}, [{', '.join(sp)}], [{', '.join(cr)}], p1)", backend="P", timeout=300,
                           family="(a) SSE body grammar vs WHATWG reference"))
+    if tier == "quick":
+        # a few three-line streams in the quick tier too: state must not leak across the blank line that ends an event
+        for kt in [("eo", "b", "d2"), ("d2", "b", "d2"), ("id", "b", "d2")]:
+            if "d1" not in kt and "d2" not in kt:
+                continue
+            n = 3
+            sp = [f"s{i}" for i in range(n)]
+            cr = [f"c{i}" for i in range(n)]
+            obs.append(Ob(name="sse_" + "_".join(kt), params=[(x, "bool") for x in sp + cr] + [("p1", "str")],
+                          pre=["len(p1) <= 1", "chr(10) not in p1 and chr(13) not in p1"],
+                          call=f"H.sse_grammar({kt!r}, [{', '.join(sp)}], [{', '.join(cr)}], p1)", backend="P", timeout=300,
+                          family="(a) SSE body grammar vs WHATWG reference"))
     # (b) matrix, one POST
     for sse in (False, True):
         for b in range(7 if sse else 9):
